@@ -163,6 +163,24 @@ func c17(c *core.Ctx, r *core.Report) {
 		}
 	}
 
+	// ---- R7: what the placeholder stage feeds into the value path is the configured value whenever there is one
+	// (false, 0 and "" are values), so that the value path can agree with the prefix path
+	for _, p := range withRole(ps, "quote", true) {
+		if lit := quoteCallback(c, p); lit != nil {
+			prs, _, pund := presenceTable(c, p, lit)
+			cons := "presence-table:" + p.Name()
+			if pund != "" {
+				r.Undecided("C17.R7", cons, c.FnPos(lit), "abstract interpretation left the model: "+pund)
+			} else {
+				prs.report(c, r, lit, func(row string) string {
+					if row == "present" || row == "recorded" {
+						return "C17.R7"
+					}
+					return ""
+				}, cons, presenceRows)
+			}
+		}
+	}
 	// ---- R4 decoder configuration and flow inside Unmarshall
 	if unm == nil {
 		r.Undecided("C17.R4", "role:Unmarshall", "", "Property.Unmarshall not found")
